@@ -86,7 +86,7 @@ func vJSONText(name string, max int) string {
 	s := vndString(name, max)
 	for i := 0; i < len(s); i++ {
 		c := s[i]
-		vAssume(vAnd(vAnd(c >= 0x20, c < 0x7f), vAnd(c != '"', c != '\\')))
+		vAssume(vAnd(vAnd(c >= 0x20, c <= 0x7f), vAnd(c != '"', c != '\\')))
 	}
 	return s
 }
@@ -340,4 +340,28 @@ func H_C20_deep_chain() {
 		o = &vJDeepNest{V: i, C: o}
 	}
 	vC20Check("a chain of nested pointers", o)
+}
+
+// strings that need no escapes but are not plain ASCII: DEL, multi-byte runes, non-printable and
+// astral code points (the standard encoder emits them raw or as \u escapes that decode to the same text)
+var vC20Texts = []string{"del\x7fchar", "社会 é ñ", "soft­hyphen", "smile😀", "tag\U000E0001here", "max\U0010FFFFrune", "bmp￾nonchar", "<>&'", "line sep"}
+
+type vJText struct {
+	S string
+	L []string
+	M map[string]string
+}
+
+func H_C20_text_runes() {
+	t := vC20Texts[vndChoice("text", len(vC20Texts))]
+	switch vndChoice("where", 4) {
+	case 0:
+		vC20Check("string field with non-ASCII runes", vJText{S: t})
+	case 1:
+		vC20Check("slice element with non-ASCII runes", &vJText{L: []string{"x", t}})
+	case 2:
+		vC20Check("map value with non-ASCII runes", vJText{M: map[string]string{"k": t}})
+	case 3:
+		vC20Check("map key with non-ASCII runes", vJText{M: map[string]string{t: "v"}})
+	}
 }
